@@ -399,7 +399,7 @@ func (r *vgRun) exec(line string) {
 			r.emit(line, "["+ints(sortedInts(keys(got)))+"]")
 		}
 		if r.ref.nodes[num(2)] != (got != nil) || (got != nil && !eqInts(sortedInts(keys(got)), r.ref.dependents(num(2)))) {
-			r.fail("C19", fmt.Sprintf("GetDependents(%d)=%v reference %v", num(2), keys(got), r.ref.dependents(num(2))))
+			r.fail("C19,C06", fmt.Sprintf("GetDependents(%d)=%v reference %v", num(2), keys(got), r.ref.dependents(num(2))))
 		}
 	case "trans":
 		k := vgPool[num(2)]
@@ -432,7 +432,7 @@ func (r *vgRun) exec(line string) {
 		}
 		sort.Ints(want)
 		if !eqInts(l, want) {
-			r.fail("C19", fmt.Sprintf("%s=%v reference %v", w[1], l, want))
+			r.fail("C19,C06", fmt.Sprintf("%s=%v reference %v", w[1], l, want))
 		}
 	case "node":
 		k := vgPool[num(2)]
@@ -446,7 +446,7 @@ func (r *vgRun) exec(line string) {
 			}
 			r.emit(line, fmt.Sprintf("p=%s in=%d out=%d", p, nd.InDegree, nd.OutDegree))
 			if nd.InDegree != len(r.ref.dependents(num(2))) || nd.OutDegree != len(r.ref.edges[num(2)]) {
-				r.fail("C19", fmt.Sprintf("degrees of %d: in=%d out=%d reference in=%d out=%d", num(2), nd.InDegree, nd.OutDegree, len(r.ref.dependents(num(2))), len(r.ref.edges[num(2)])))
+				r.fail("C19,C06", fmt.Sprintf("degrees of %d: in=%d out=%d reference in=%d out=%d", num(2), nd.InDegree, nd.OutDegree, len(r.ref.dependents(num(2))), len(r.ref.edges[num(2)])))
 			}
 		}
 	case "depths":
